@@ -258,7 +258,7 @@ func (w *worker) waitFor(pred func() bool, d time.Duration) bool {
 	return true
 }
 
-const wedgeTimeout = 15 * time.Second
+const wedgeTimeout = 45 * time.Second
 
 func (w *worker) wedge(what string) string {
 	fmt.Fprintf(os.Stderr, "WEDGE: %s (begins=%d ends=%d expected=%d)\n", what, w.begins, w.ends, w.expected)
